@@ -27,4 +27,4 @@ For each change i in 1..3 write into /tmp/mut-{pid}/out/<i>/ :
   - patch.diff  : `git diff` of the change against HEAD (apply-able with `git apply` at the repo root)
   - demo.py     : a small standalone program (run as `cd <repo root> && /venv/bin/python demo.py`) that exits 0 and prints PASS on the unchanged code and exits 1 and prints FAIL (with the observed vs expected values) on the changed code; it must exercise the property through the public behaviour
   - notes.md    : which clause of the property it breaks, what exactly is needed for it to manifest, and the pytest pass/fail counts before and after.
-Verify each demo both ways yourself (stash/apply the patch). Reset the worktree to HEAD between changes (`git -C {wt} checkout -- .`). When finished, remove the worktree with `git -C /repo worktree remove --force {wt}` (keep /tmp/mut-{pid}/out) and reply with a short summary of the three changes.""")
+Verify each demo both ways yourself (`git diff > p.diff; git apply -R p.diff; …; git apply p.diff` — do NOT use `git stash`: the stash is shared by all worktrees of /repo and other people work there concurrently). Reset the worktree to HEAD between changes (`git -C {wt} checkout -- .`). When finished, remove the worktree with `git -C /repo worktree remove --force {wt}` (keep /tmp/mut-{pid}/out) and reply with a short summary of the three changes.""")
